@@ -4,9 +4,9 @@
    ([wf]: len <= cap); none of the statements needs the bytes to be < 256.
    State of the code: after the repairs of DESIGN section 11 #12 (NDP zero-length option),
    #19 (NBNS loop + node-name array), #20 (mDNS SkipAnswer), #21 (SSDP CACHE-CONTROL) and of
-   the hop-by-hop length guard, the full-strength statements hold; the two classes left
-   (LLDP TLV length < 2: #7, embedded IPv4 header of an ICMPv4 error with TotalLen < IHL: #3)
-   belong to the view getters (VIEWS cluster) and are stated as refuted / classified. *)
+   the hop-by-hop length guard, and of #3 / #7 by the VIEWS cluster (IP4.IsValid, LLDP.getTLV),
+   the full-strength statements hold.  One class is left: the DHCPv4 reply encoded into the
+   request buffer beyond its capacity (EncodeDHCP4, ENCODE cluster): refuted / partial. *)
 From PV Require Import Base.Prelude Base.Slice.
 From PV Require Import Model.NDPOptions Model.MiscHopByHop Model.HandlersLoop Model.HandlersDnsMsg.
 From PV Require Import Model.MiscDecoders Model.HandlersProc.
@@ -127,28 +127,31 @@ Theorem C08_process_8023_total : forall payload, wf payload ->
 Proof. exact process_8023_total. Qed.
 Print Assumptions C08_process_8023_total.
 
-(* LLDP.GetPDU (layer_ethernet.go:277): DESIGN section 11 #7 (getTLV belongs to VIEWS) *)
-Theorem C08_lldp_refuted :
-  bytes_ok lldp_w /\ known_C08_lldp_short_tlv (of_bytes lldp_w) 3 = true /\
-  forall fuel, (8 < fuel)%nat -> lldp_get_pdu fuel (of_bytes lldp_w) 3 0 = Panic.
-Proof. exact lldp_refuted. Qed.
-Print Assumptions C08_lldp_refuted.
-
-Theorem C08_lldp_partial : forall p pdu, wf p -> known_C08_lldp_short_tlv p pdu = false ->
+(* LLDP.GetPDU (layer_ethernet.go:277; getTLV as repaired by 5551427): total *)
+Theorem C08_lldp_total : forall p pdu, wf p ->
   forall fuel, (len p < fuel)%nat ->
   lldp_get_pdu fuel p pdu 0 <> Panic /\ lldp_get_pdu fuel p pdu 0 <> Fuel.
-Proof. exact lldp_get_pdu_partial. Qed.
-Print Assumptions C08_lldp_partial.
+Proof. exact lldp_get_pdu_total. Qed.
+Print Assumptions C08_lldp_total.
 
-Theorem C08_lldp_known_exact : forall p pdu, wf p -> known_C08_lldp_short_tlv p pdu = true ->
-  forall fuel, (len p < fuel)%nat -> lldp_get_pdu fuel p pdu 0 = Panic.
-Proof. exact lldp_get_pdu_known_panics. Qed.
-Print Assumptions C08_lldp_known_exact.
+(* LLDP frames through the dispatcher: IsValid then GetPDU *)
+Theorem C08_lldp_process_total : forall p pdu, wf p ->
+  forall fuel, (len p < fuel)%nat ->
+  lldp_process fuel p pdu <> Panic /\ lldp_process fuel p pdu <> Fuel.
+Proof. exact lldp_process_total. Qed.
+Print Assumptions C08_lldp_process_total.
 
+(* the former #7 witness (TLV of length 1) and a regular chain *)
 Example C08_lldp_nonvacuous :
-  known_C08_lldp_short_tlv (of_bytes lldp_good) 3 = false /\ lldp_get_pdu 30 (of_bytes lldp_good) 3 0 = Ok tt.
+  bytes_ok lldp_w /\ lldp_get_pdu 30 (of_bytes lldp_w) 3 0 = Ok tt /\ lldp_get_pdu 30 (of_bytes lldp_good) 3 0 = Ok tt.
 Proof. exact lldp_nonvacuous. Qed.
 Print Assumptions C08_lldp_nonvacuous.
+
+(* UPNPServiceDiscovery (upnp.go:80) over the outcome of the HTTP exchange and of xml.Unmarshal *)
+Theorem C08_upnp_total : forall fetch_ok xml_ok,
+  upnp_discovery fetch_ok xml_ok <> Panic /\ upnp_discovery fetch_ok xml_ok <> Fuel.
+Proof. exact upnp_discovery_total. Qed.
+Print Assumptions C08_upnp_total.
 
 (* SSDP: CACHE-CONTROL parsing (ssdp.go:66, byte level) and processSSDP* over the structured
    view of the net/http result *)
@@ -168,36 +171,61 @@ Proof. exact ssdp_cc_nonvacuous. Qed.
 Print Assumptions C08_ssdp_nonvacuous.
 
 (* ---------------------------------------------------------------- *)
-(* processors: byte-access skeletons (Model/HandlersProc.v) *)
-Theorem C08_arp_total : forall p, wf p -> arp_process p <> Panic /\ arp_process p <> Fuel.
+(* processors (Model/HandlersProc.v): the control flow that indexes, slices, loops or calls a
+   decoder; every branch on table state is a parameter ([*_env]) quantified here.
+   LLMNR frames (PayloadLLMNR) are dispatched to ProcessMDNS: C08_mdns_total. *)
+
+(* ARP ProcessPacket: request / probe / announcement / reply classification, for every state
+   (closed, sender hunted, DHCP offer pending, log level), router address and LAN predicate *)
+Theorem C08_arp_total : forall e router lan p, wf p ->
+  arp_process e router lan p <> Panic /\ arp_process e router lan p <> Fuel.
 Proof. exact arp_process_total. Qed.
 Print Assumptions C08_arp_total.
 
-Theorem C08_dhcp4_total : forall p, wf p -> forall fuel, (len p < fuel)%nat ->
-  dhcp4_process fuel p <> Panic /\ dhcp4_process fuel p <> Fuel.
-Proof. exact dhcp4_process_total. Qed.
-Print Assumptions C08_dhcp4_total.
+(* DHCPv4 ProcessPacket / processClientPacket.  The one place where the processor writes: the
+   OFFER/ACK/NAK is encoded INTO the request buffer (EncodeDHCP4(p, ...), layer_dhcp4.go:355)
+   and p[240+pos] = End is stored without checking the capacity; the NAK carries the client
+   identifier back.  Refuted for a request of exactly the buffer size with a 60-byte identifier: *)
+Theorem C08_dhcp4_refuted :
+  bytes_ok dhcp_nak_w /\
+  known_C08_dhcp_reply_overrun (mkDhcpEnv false RNak false) (of_bytes dhcp_nak_w) = true /\
+  dhcp4_process 400 (mkDhcpEnv false RNak false) (of_bytes dhcp_nak_w) = Panic.
+Proof. exact dhcp4_refuted. Qed.
+Print Assumptions C08_dhcp4_refuted.
 
-(* ICMPv4 logger: DESIGN section 11 #3 reached through the embedded header (IP4.IsValid /
-   IP4.Payload belong to VIEWS) *)
-Theorem C08_icmp4_refuted :
-  bytes_ok icmp4_w /\ known_C08_icmp4_inner (of_bytes icmp4_w) = true /\ icmp4_process (of_bytes icmp4_w) = Panic.
-Proof. exact icmp4_refuted. Qed.
-Print Assumptions C08_icmp4_refuted.
+(* total for every state (port, lease decision, reply size, log level) outside the class
+   "a reply is encoded, cap(p) >= 300 and cap(p) <= 240 + reply option bytes" *)
+Theorem C08_dhcp4_partial : forall e p, wf p -> known_C08_dhcp_reply_overrun e p = false ->
+  forall fuel, (len p < fuel)%nat ->
+  dhcp4_process fuel e p <> Panic /\ dhcp4_process fuel e p <> Fuel.
+Proof. exact dhcp4_process_partial. Qed.
+Print Assumptions C08_dhcp4_partial.
 
-Theorem C08_icmp4_classified : forall p, wf p ->
-  if known_C08_icmp4_inner p then icmp4_process p = Panic
-  else icmp4_process p <> Panic /\ icmp4_process p <> Fuel.
-Proof. exact icmp4_process_classified. Qed.
-Print Assumptions C08_icmp4_classified.
+Example C08_dhcp4_nonvacuous :
+  known_C08_dhcp_reply_overrun (mkDhcpEnv false (ROther 33) true) (of_bytes (dhcp_sample ++ repeat 0 60)) = false /\
+  dhcp4_process 400 (mkDhcpEnv false (ROther 33) true) (of_bytes (dhcp_sample ++ repeat 0 60)) = Ok tt.
+Proof. exact dhcp4_nonvacuous. Qed.
+Print Assumptions C08_dhcp4_nonvacuous.
 
+(* ICMPv4 logger incl. the nested IPv4/UDP/TCP decode of destination unreachable
+   (IP4.IsValid as repaired by 38ef1da, TCP.IsValid by 3443f46): total *)
+Theorem C08_icmp4_total : forall info p, wf p ->
+  icmp4_process info p <> Panic /\ icmp4_process info p <> Fuel.
+Proof. exact icmp4_process_total. Qed.
+Print Assumptions C08_icmp4_total.
+
+(* the former #3 witness (embedded header with TotalLen < IHL) is now an error *)
 Example C08_icmp4_nonvacuous :
-  known_C08_icmp4_inner (of_bytes icmp4_good) = false /\ icmp4_process (of_bytes icmp4_good) = Ok tt.
+  bytes_ok icmp4_w /\ icmp4_process true (of_bytes icmp4_w) = Err EParseFrame /\
+  icmp4_process true (of_bytes icmp4_good) = Ok tt.
 Proof. exact icmp4_nonvacuous. Qed.
 Print Assumptions C08_icmp4_nonvacuous.
 
-Theorem C08_icmp6_total : forall lbl_ok p ra_processed, wf p ->
+(* ICMPv6 ProcessPacket: every message type (NA/NS target + options, RA options, RS, echo,
+   redirect, MLD, unreachable), for every state (log level, unspecified source, RA processed,
+   hunt list) *)
+Theorem C08_icmp6_total : forall lbl_ok p e, wf p ->
   forall fuel, (len p < fuel)%nat ->
-  icmp6_process lbl_ok fuel ra_processed p <> Panic /\ icmp6_process lbl_ok fuel ra_processed p <> Fuel.
+  icmp6_process lbl_ok fuel e p <> Panic /\ icmp6_process lbl_ok fuel e p <> Fuel.
 Proof. exact icmp6_process_total. Qed.
 Print Assumptions C08_icmp6_total.
